@@ -134,6 +134,9 @@ pub proof fn lemma_bit_of_add(x: nat, y: nat, k: nat, i: nat)
         assert(y * pow2(k) == 2 * (y * pk1)) by (nonlinear_arith) requires pow2(k) == 2 * pk1;
         if i == 0 {
             assert(pow2(0) == 1);
+            assert(z / 1 == z && x / 1 == x);
+            assert(bit_of(z, 0) == ((z / pow2(0)) % 2 == 1));
+            assert(bit_of(x, 0) == ((x / pow2(0)) % 2 == 1));
             assert(bit_of(z, 0) == (z % 2 == 1));
             assert(bit_of(x, 0) == (x % 2 == 1));
         } else {
@@ -213,4 +216,36 @@ pub proof fn lemma_or_shift_u32(buffer: u32, bits: u32, k: u32, len: u32)
     assert((bits as int * pk as int) / (pk as int) == bits as int) by (nonlinear_arith) requires pk > 0;
     assert((sh >> k) == bits);
     assert((buffer | sh) == buffer + sh) by (bit_vector) requires buffer < m, m == (1u32 << k), sh == bits << k, k < 32, (sh >> k) == bits;
+}
+
+pub proof fn lemma_bytes_bits_concat(a: Seq<u8>, b: Seq<u8>)
+    ensures bytes_bits(a + b) == bytes_bits(a) + bytes_bits(b),
+    decreases b.len()
+{
+    if b.len() == 0 {
+        assert(a + b =~= a);
+        assert(bytes_bits(a) + bytes_bits(b) =~= bytes_bits(a));
+    } else {
+        let b0 = b.drop_last();
+        lemma_bytes_bits_concat(a, b0);
+        assert(a + b =~= (a + b0).push(b.last()));
+        assert(b =~= b0.push(b.last()));
+        lemma_bytes_bits_push(a + b0, b.last());
+        lemma_bytes_bits_push(b0, b.last());
+        assert(bytes_bits(a) + bytes_bits(b0) + lsb_bits(b.last() as nat, 8) =~= bytes_bits(a) + (bytes_bits(b0) + lsb_bits(b.last() as nat, 8)));
+    }
+}
+/// a 16-bit value written as two little-endian bytes
+pub proof fn lemma_bytes_bits_u16(x: u16)
+    ensures bytes_bits(seq![(x % 256) as u8, (x / 256) as u8]) == lsb_bits(x as nat, 16),
+{
+    lemma2_to64();
+    let lo = (x % 256) as u8; let hi = (x / 256) as u8;
+    lemma_lsb_split8(x as nat, 16);
+    lemma_bytes_bits_push(seq![lo], hi);
+    lemma_bytes_bits_push(Seq::<u8>::empty(), lo);
+    assert(Seq::<u8>::empty().push(lo) =~= seq![lo]);
+    assert(seq![lo].push(hi) =~= seq![lo, hi]);
+    assert(bytes_bits(Seq::<u8>::empty()) =~= Seq::<bool>::empty());
+    assert(bytes_bits(seq![lo, hi]) =~= lsb_bits(lo as nat, 8) + lsb_bits(hi as nat, 8));
 }
